@@ -1,11 +1,12 @@
 #!/bin/bash
 # tools/run_all.sh [tier] [ids...] - run every registered check once; summary line per check
+HERE="$(cd "$(dirname "${BASH_SOURCE[0]}")/.." && pwd)"
 TIER="${1:-quick}"; shift
 IDS="$@"
-[ -z "$IDS" ] && IDS=$(/venv/bin/python -c "import json;print(' '.join(c['property_id'] for c in json.load(open('/verif/MANIFEST.json'))['checks']))")
+[ -z "$IDS" ] && IDS=$(/venv/bin/python -c "import json;print(' '.join(c['property_id'] for c in json.load(open('$HERE/MANIFEST.json'))['checks']))")
 for id in $IDS; do
   s=$(date +%s)
-  out=$(/verif/check $id --tier $TIER 2>&1 | grep -v "WARNING conda\|resource_tracker\|warnings.warn")
+  out=$($HERE/check $id --tier $TIER 2>&1 | grep -v "WARNING conda\|resource_tracker\|warnings.warn")
   rc=$?
   e=$(date +%s)
   echo "$id rc=$(echo "$out" | grep -c '^VIOLATION')v/$(echo "$out" | grep -c '^KNOWN-FINDING')k/$(echo "$out" | grep -c 'HARNESS-ERROR')h wall=$((e-s))s :: $(echo "$out" | grep "^$id tier" | cut -c1-200)"
